@@ -444,6 +444,8 @@ __wrap_pthread_create(pthread_t *pt, const pthread_attr_t *attr, void *(*fn)(voi
 		return (rc);
 	}
 	*pt = sc_thr[id].pt;
+	/* the new thread exists: it may run before the creator's next plain access ("store the state after the create") */
+	sc_point_ex(OP_GENERIC, NULL, 0, "pthread_create.after");
 	return (0);
 }
 
